@@ -127,6 +127,10 @@ func (w *wrapper) startStream(ctx context.Context, method string) (context.Conte
 	md = cloneMD(md) // to prevent client from concurrently modifying the metadata
 
 	ctx = metadata.NewIncomingContext(ctx, md)
+	// like a gRPC server's context, the handler's context carries no outgoing metadata of its own:
+	// what the client attached for this call has become the incoming metadata above and must not travel
+	// on with calls the handler makes using its context (a handler has to forward metadata explicitly)
+	ctx = metadata.NewOutgoingContext(ctx, nil)
 	// attach a TransportStream to the context, so the server can send headers
 	sts := &serverTransportStream{method: method}
 	ctx = grpc.NewContextWithServerTransportStream(ctx, sts)
